@@ -1,4 +1,6 @@
 import GlareModel.Core.Proto
+import GlareModel.Core.ExecStack
+import GlareModel.Proofs.ExecStack
 /-! # C04 — Every schedule terminates with the same result; no wake-up is lost
 
 Invariants of the scheduling protocol models, proved for every reachable state, i.e. for every
@@ -192,5 +194,62 @@ theorem missing_wake_all_loses_wake :
     b.flag = true ∧ b.parked 0 = true ∧ b.woken 0 = false := by decide
 
 example : (brun (Barrier.init 2) [.await 0, .arrive 1, .await 1, .arrive 0]).woken 0 = true := by decide
+
+/-! ## Execution stack of a partition pipeline
+
+`ExecutionStack::pop_next` (model: `Core/ExecStack.lean`, tied to the real stack by `gvh execstack`)
+drives the operators of one partition. Other partitions wait on cross-partition barriers inside the
+operators (the drain phase of a LEFT/RIGHT join waits for every probing partition to finalize), so
+"every schedule terminates" needs: **a partition pipeline never finishes while one of its operators
+has neither been finalized nor answered `Exhausted`**. The poll results are the script, so the
+theorem covers every behaviour of the operators, every number of operators and every length of run.
+The only hypothesis is the protocol the operators keep: the operator acting as the start of the
+pipeline never answers `NeedsMore` (`broke = false`). -/
+
+open GlareModel.ExecStack GlareModel.Proofs.ExecStack in
+/-- **A finished pipeline has told every operator**: for every number of operators and every
+sequence of poll results, when the repaired stack reports `Finished`, every operator but the source
+has been finalized or has answered `Exhausted`, and no operator was finalized twice. -/
+theorem stack_finished_all_finalized (n : Nat) (hn : 0 < n) (script : List Nat)
+    (hb : (ExecStack.run true n script).broke = false)
+    (hf : (ExecStack.run true n script).flow = .finished) :
+    (∀ j, 1 ≤ j → j < n →
+        j ∈ finalizedOps (ExecStack.run true n script).calls ∨ j ∈ exhaustedOps (ExecStack.run true n script).calls) ∧
+      (finalizedOps (ExecStack.run true n script).calls).Nodup := by
+  have h := fold_good n script init (good_init n hn) hb
+  unfold Good Post at h
+  unfold ExecStack.run at hf ⊢
+  rw [hf] at h
+  exact h
+
+open GlareModel.ExecStack GlareModel.Proofs.ExecStack in
+/-- **No operator is finalized twice** while the pipeline runs (any state that is not an error). -/
+theorem stack_finalizes_once (n : Nat) (hn : 0 < n) (script : List Nat)
+    (hb : (ExecStack.run true n script).broke = false)
+    (hf : (ExecStack.run true n script).flow ≠ .error) :
+    (finalizedOps (ExecStack.run true n script).calls).Nodup := by
+  have h := fold_good n script init (good_init n hn) hb
+  unfold Good Post at h
+  unfold ExecStack.run at hf ⊢
+  cases hfl : (List.foldl (ExecStack.step true n) init script).flow with
+  | error => exact absurd hfl hf
+  | finished => rw [hfl] at h; exact h.2
+  | «continue» => rw [hfl] at h; exact h.2
+  | pending => rw [hfl] at h; exact h.2
+
+/-- The stack of the pinned commit (before the repair of F38/F64) violates it: four operators, the
+source and operator 1 answer `Ready`, operator 2 (a LIMIT) answers `Exhausted`, the sink takes the
+last batch and is finalized - the pipeline finishes and operator 1 (the probe side of a join) was
+never finalized. The operators kept the protocol. -/
+theorem old_stack_skips_finalize :
+    let s := ExecStack.run false 4 [0, 0, 4, 0, 0]
+    s.flow = .finished ∧ s.broke = false ∧
+      1 ∉ ExecStack.finalizedOps s.calls ∧ 1 ∉ ExecStack.exhaustedOps s.calls := by decide
+
+/-- The same script on the repaired stack: operator 1 is finalized (`f1`) before the sink runs. -/
+example : ExecStack.trace true 4 [0, 0, 4, 0, 0, 0] = "e0:0 e1:0 e2:4 f1:0 e3:0 f3:0 end=1" := by decide
+
+/-- Non-vacuity of the hypotheses: a run that finishes with the protocol kept. -/
+example : (ExecStack.run true 4 [0, 0, 4, 0, 0, 0]).flow = .finished ∧ (ExecStack.run true 4 [0, 0, 4, 0, 0, 0]).broke = false := by decide
 
 end GlareModel.Props.C04
